@@ -30,7 +30,7 @@ def kernel_sizes(out):
 
 class Prop:
     pid = "C18"
-    vo_check = ["theories/UdpGso/Check.vo"]
+    vo_check = ["theories/UdpGso/Check.vo", "theories/Gen/GsoAst.vo"]
     vo_props = ["theories/Props/C18.vo"]
     k_names = ["sendloop(StdNetBind.send under an injected oracle of per-call acceptance counts/failures via VerifSendLoop == UdpGso.Model.send_loop: "
                "order and multiplicity of the messages handed to the kernel, error flag)",
@@ -64,7 +64,8 @@ class Prop:
                    "msgs[i].OOB has length 0 and capacity >= sticky control + one UDP_SEGMENT message (StdNetBind's pool)",
                    "buffers passed to Send do not share backing arrays (device gives each element its own array)",
                    "every receive buffer holds the largest datagram (device: 65535 bytes)"]
-    trusted_extra = ["Base/Ints.v: primitive Uint63 literals carry sizes and run descriptions in generated case files only",
+    trusted_extra = ["translator harness/cmd/gsoast (go/parser: body of coalesceMessages as a deep-embedded AST over the model's buf / msg records; interpreter ints are Z without wrap-around (lengths < 2^16, capacities < 2^62 assumed); unrecognised constructs become Unknown nodes; notes/C18-coal-ast.md)",
+                     "Base/Ints.v: primitive Uint63 literals carry sizes and run descriptions in generated case files only",
                      "harness run-length encoder of byte strings (pattern runs; decoded and compared byte for byte in Go before use)",
                      "conn/verif_c18_linux.go: sets ep.src, switches offloads off on an open bind (add-only, verif tag)",
                      "conn/verif_c18b_linux.go: runs StdNetBind.send with a harness writer, replaces the packet conn Send writes to "
@@ -73,6 +74,8 @@ class Prop:
 
     def __init__(self):
         self.dir = os.path.join(vlib.OUT, "C18")
+        # translator G2: coalesceMessages regenerated from the source on every run
+        self.translators = [lambda: vlib.gen_file("gsoast", os.path.join("Gen", "GsoAst.v"), ["-repo", vlib.REPO])]
         self.extra_coverage = {}
         self.loop_fail_idx = {}
         self.emitted = set()
